@@ -240,13 +240,24 @@ def run_engine_worker(args):
             if len(mism) >= 20:
                 break
     res["mismatches"] = mism
-    orc = []
+    # every oracle line is classified: lines tagged KNOWN[<tag>] are kept once per tag (with the
+    # first trace that showed them), untagged ones (candidate violations) are all counted and the
+    # first 50 kept with their commands, so known findings can never crowd out a new violation
+    orc, seen_tags, n_all = [], set(), 0
     with open(os.path.join(outdir, "oracle.txt")) as fh:
         for line in fh:
+            n_all += 1
             t, _, msg = line.rstrip("\n").partition("\t")
-            orc.append({"trace": t, "msg": msg, "cmds": cm.get(t, [])})
-    res["oracle"] = orc[:50]
-    res["oracle_count"] = len(orc)
+            m = re.match(r"KNOWN\[([^\]]+)\]", msg)
+            if m:
+                if m.group(1) in seen_tags:
+                    continue
+                seen_tags.add(m.group(1))
+                orc.append({"trace": t, "msg": msg, "cmds": cm.get(t, []) or [f"# trace {t}"]})
+            elif sum(1 for o in orc if not o["msg"].startswith("KNOWN[")) < 50:
+                orc.append({"trace": t, "msg": msg, "cmds": cm.get(t, []) or [f"# trace {t}"]})
+    res["oracle"] = orc
+    res["oracle_count"] = n_all
     res["stats"] = json.load(open(os.path.join(outdir, "stats.json")))
     return res
 
